@@ -10,9 +10,9 @@ META = dict(
                'codec.BitField.enc_val/dec_val', 'codec.BitField.Spare', 'codec.Envelope.from_bytes/to_bytes/_from_bytes/_to_bytes',
                'codec.Envelope.F', 'codec.Sequence.from_bytes/to_bytes', 'codec.Sequence.F'],
     bounds=dict(quick='definitions: the program quantifier is ENUMERATED/SAMPLED, not solved - every single-field definition of the grammar (uint widths 1,2,3,4,8 x sign x byte order x 4 offset/mult pairs; '
-                      'buffers; spares; bit-field partitions of 1-2 octets in both orders with fixed values and spares) plus 120 VERIF_SEED-sampled composite definitions (<= 6 fields, nesting depth <= 3, optional and length-prefixed fields, sequences of 0..3 items); '
+                      'buffers; spares; bit-field partitions of 1-2 octets in both orders with fixed values and spares) plus 400 VERIF_SEED-sampled composite definitions (<= 6 fields, nesting depth <= 3, optional and length-prefixed fields, sequences of 0..3 items); '
                       'all VALUES and all OCTETS are symbolic and decided by the solver',
-                thorough='as quick with 1200 sampled composite definitions, bit-field sets up to 4 octets'),
+                thorough='as quick with 4000 sampled composite definitions, bit-field sets up to 4 octets'),
     stubs=['int.from_bytes / int.to_bytes / bytes.join models', 'bytes proxies', '__index__ of a symbolic int pinned by the path condition'],
     outside=['definitions outside the grammar of vf/checks/c16.py', 'mult with non-exact division: values are taken in the image of decoding (raw*mult+offset)', 'callbacks other than presence-by-flag and length-by-earlier-field'],
     assumptions=['the reference encoder/decoder in vf/checks/c16.py (written from the codec documentation, independent of codec.py) is the oracle'],
@@ -108,7 +108,7 @@ def jobs(tier, seed):
     rnd = random.Random(1000003 * seed + 16)
     maxbits = 4 if tier == 'thorough' else 2
     defs = all_single_defs(maxbits)
-    n = 1200 if tier == 'thorough' else 120
+    n = 4000 if tier == "thorough" else 400
     seen = set(json.dumps(d) for d in defs)
     tries = 0
     while len(defs) < n + len(seen) and tries < 20 * n:
@@ -310,6 +310,30 @@ def ref_decode(spec, o, pos=0):
     return v, pos, cond
 
 
+def canonical(spec, o, pos=0):
+    """canonical re-encoding of an accepted octet string: integers and buffers keep their octets (every octet string
+    is the unique encoding of its value), spares carry the filler, bit-field sets have spare/unused bits zeroed"""
+    out = []
+    for nd in spec:
+        k = nd[0]
+        if k == 'uint': out += o[pos:pos + nd[2]]; pos += nd[2]
+        elif k == 'buf':
+            n = nd[2] if nd[2] else nd[3]; out += o[pos:pos + n]; pos += n
+        elif k == 'spare': out += [nd[3]] * nd[2]; pos += nd[2]
+        elif k == 'bits':
+            sv, _, _ = ref_decode([nd], o, pos); out += ref_encode([nd], sv); pos += nd[3]
+        elif k == 'opt':
+            if nd[2]:
+                c, pos = canonical([nd[3]], o, pos); out += c
+        elif k == 'lv': out += o[pos:pos + nd[2]]; pos += nd[2]
+        elif k == 'env':
+            c, pos = canonical(nd[2], o, pos); out += c
+        elif k == 'seq':
+            for i in range(nd[3]):
+                c, pos = canonical(nd[2], o, pos); out += c
+    return out, pos
+
+
 def to_env_vals(ctx, v):
     """reference vals -> what the user puts into Envelope.c"""
     out = {}
@@ -374,7 +398,7 @@ def h_def(ctx, spec):
         cmp_vals(ctx, 'dec2', d2.c, rv)
         with ctx.no_raise('reenc:no-exception'):
             data2 = d2.to_bytes()
-        check_seq_eq(ctx, 'reenc.octet', raw_of(data2), ref_encode(spec, rv))
+        check_seq_eq(ctx, 'reenc.octet', raw_of(data2), canonical(spec, o)[0])
         # (3) short input and trailing octets
         if L > 0:
             rej = False
